@@ -31,6 +31,7 @@ def limiterArith : List Bytes := [
   b!"s.sizeBytes+=sizeBytes",
   b!"closeFinisher:if revalidate {return }",
   b!"closeFinisher:ai:={accessTime:accessTime((time.Now().Unix()-s.startedAt)),sizeKilobytes:uint32((size/1024))}",
+  b!"closeFinisher:verifAdjustAccess(s,&ai,nil)",
   b!"closeFinisher:s.itemsChan<-&{op:opAdd,name:itemName(name),accessedItem:&ai}",
   b!"item:={accessTime((time.Now().Unix()-s.startedAt)),uint32((size/1024))}",
   b!"storableItem:={time.Now().Unix(),uint32((size/1024))}",
